@@ -14,6 +14,7 @@ from __future__ import annotations
 import re
 from collections.abc import Callable, Generator, Iterable
 from contextlib import contextmanager
+from fractions import Fraction
 from functools import partial
 from locale import LC_NUMERIC, getlocale, setlocale
 from typing import (
@@ -98,10 +99,21 @@ def override_locale(
         setlocale(LC_NUMERIC, prev_locale_string)
 
 
+def format_exponent(num: Number) -> str:
+    """Format an exponent as a plain number.
+
+    Fraction (the exponent type in registries built with non_int_type=Fraction)
+    does not support the 'n' presentation type.
+    """
+    if isinstance(num, Fraction):
+        num = num.numerator if num.denominator == 1 else float(num)
+    return f"{num:n}"
+
+
 def pretty_fmt_exponent(num: Number) -> str:
     """Format an number into a pretty printed exponent."""
     # unicode dot operator (U+22C5) looks like a superscript decimal
-    ret = f"{num:n}".replace("-", "⁻").replace(".", "\u22C5")
+    ret = format_exponent(num).replace("-", "⁻").replace(".", "\u22C5")
     for n in range(10):
         ret = ret.replace(str(n), _PRETTY_EXPONENTS[n])
     return ret
@@ -162,7 +174,7 @@ def formatter(
     division_fmt: str = " / ",
     power_fmt: str = "{} ** {}",
     parentheses_fmt: str = "({0})",
-    exp_call: FORMATTER = "{:n}".format,
+    exp_call: FORMATTER = format_exponent,
 ) -> str:
     """Format a list of (name, exponent) pairs.
 
